@@ -62,7 +62,7 @@ VARIANTS = {
 }
 
 
-SETUP_VARIANTS = ["dbg"]
+SETUP_VARIANTS = ["dbg", "idx", "safe", "idxsafe", "utf16", "nostd"]
 
 
 class HarnessError(Exception):
@@ -125,6 +125,8 @@ class Merged:
         self.known = []
         self.crashes = []  # dicts
         self.replay_held = []
+        self.digests = {}
+        self.dumps = []
         self.incomplete = 0
         self.wall = 0.0
 
@@ -148,6 +150,8 @@ class Merged:
         self.crashes += other.crashes
         self.incomplete += other.incomplete
         self.replay_held += other.replay_held
+        self.digests.update(other.digests)
+        self.dumps += other.dumps
 
     def c(self, k):
         return self.counters.get(k, 0)
@@ -238,6 +242,15 @@ def run_shard(binary, check, tier, seed, shard, nshards, scale, opts, timeout, m
                     out.notes.append("unparsable S line (%s)" % ex)
             elif l.startswith("REPLAY-HELD"):
                 out.replay_held.append(l)
+            elif l.startswith("D "):
+                parts = l.split()
+                if len(parts) == 4:
+                    out.digests[int(parts[1])] = (parts[2], int(parts[3]))
+            elif l.startswith("X "):
+                try:
+                    out.dumps.append(json.loads(l[2:]))
+                except Exception:
+                    pass
         if rc == 0 and got_stats:
             return
         if timed_out:
@@ -508,6 +521,82 @@ def c13_extra(m):
     return dict(programs_mentioning_nonascii=m.c("programs_mentioning_nonascii"), pairs_with_nonascii_pattern=m.c("pairs_with_nonascii_pattern"))
 
 
+C15_VARIANTS = ["dbg", "idx", "safe", "idxsafe", "utf16", "nostd"]
+
+
+def check_c15(tier, seed, replay=None):
+    t0 = time.time()
+    pid = "C15"
+    for v in C15_VARIANTS:
+        build(v)
+    os.makedirs(os.path.join(BUILD, "tmp"), exist_ok=True)
+    timeout = 7200 if tier == "thorough" else 1500
+    if replay:
+        r = json.load(open(replay))
+        idx = (r.get("case") or {}).get("program_index")
+        variants = (r.get("case") or {}).get("variants") or ["dbg", "idx"]
+        rseed = (r.get("case") or {}).get("seed", seed)
+        rtier = (r.get("case") or {}).get("tier", tier)
+        obs = {}
+        for v in variants:
+            m = run_shards(v, "c15", rtier, rseed, opts={"dump_idx": idx}, nshards=1, timeout=timeout)
+            obs[v] = m.dumps[0]["observations"] if m.dumps else None
+        if obs[variants[0]] == obs[variants[1]]:
+            print("replay: held")
+            return 0
+        print("replay: still differs between %s and %s" % (variants[0], variants[1]))
+        print("VIOLATION property=C15 replay=%s" % replay)
+        return 1
+    base = run_shards("dbg", "c15", tier, seed, timeout=timeout)
+    expensive = sorted(i for i, (h, c) in base.digests.items() if c >= 1000000)
+    skipf = os.path.join(BUILD, "tmp", "c15-skip-%d-%s.txt" % (seed, tier))
+    with open(skipf, "w") as f:
+        f.write(" ".join(str(i) for i in expensive))
+    merged = base
+    compared = 0
+    mismatches = []
+    per_variant = {}
+    for v in C15_VARIANTS[1:]:
+        m = run_shards(v, "c15", tier, seed, opts={"skip_file": skipf}, timeout=timeout)
+        merged.crashes += m.crashes
+        merged.incomplete += m.incomplete
+        merged.violations += m.violations
+        n = 0
+        for i, (h, c) in base.digests.items():
+            if c >= 1000000:
+                continue
+            o = m.digests.get(i)
+            if o is None:
+                if not m.crashes and not m.incomplete:
+                    mismatches.append((v, i, h, None))
+                continue
+            n += 1
+            if o[0] != h:
+                mismatches.append((v, i, h, o[0]))
+        per_variant[v] = n
+        compared += n
+    # details for the first few mismatches
+    for v, i, h, o in mismatches[:5]:
+        a = run_shards("dbg", "c15", tier, seed, opts={"dump_idx": i}, nshards=1, timeout=600)
+        b = run_shards(v, "c15", tier, seed, opts={"dump_idx": i}, nshards=1, timeout=600)
+        oa = a.dumps[0] if a.dumps else {}
+        ob = b.dumps[0] if b.dumps else {}
+        la, lb = oa.get("observations", []), ob.get("observations", [])
+        diff = [(x, y) for x, y in zip(la, lb) if x != y][:3]
+        prog = oa.get("program") or ob.get("program") or {}
+        case = dict(prog)
+        case.update(program_index=i, variants=["dbg", v], seed=seed, tier=tier)
+        merged.violations.append(dict(property="C15", what="results differ between the default build and the %s feature variant" % v, case=case, observed="%s: %s" % (v, [d[1] for d in diff] or o), expected="default: %s" % ([d[0] for d in diff] or h)))
+    for v, i, h, o in mismatches[5:40]:
+        merged.violations.append(dict(property="C15", what="results differ between the default build and the %s feature variant" % v, case=dict(program_index=i, variants=["dbg", v], seed=seed, tier=tier), observed=str(o), expected=str(h)))
+    merged.counters["digests_compared"] = compared
+    merged.counters["programs_excluded_as_expensive"] = len(expensive)
+    rule = ("one deterministic stream of programs (fixed corpus, small-scope enumeration under 4 flag sets, seeded structured random patterns incl. property escapes and fold-special alphabets) replayed by runner binaries built with each feature set;"
+            " per program a digest over: compile Ok/Err, full match sequences of the backtracking and PikeVM executors and the ASCII entry point on every relevant-alphabet haystack from every start, replace and replace_all."
+            " A case is (program, haystack, start, entry point) in the default build; non-trivial iff it matched. Digests of every other variant must equal the default build's.")
+    return finish(pid, tier, seed, merged, rule, ASSUME_COMMON + ["variants: default, index-positions, prohibit-unsafe, both, utf16, no-std (alloc + backend-pikevm)", "programs whose search exhausts the step budget in the default build are excluded in all variants (the no-std build has no fuel hook)"], extra_cov=dict(variants=C15_VARIANTS, digests_compared=compared, digests_compared_per_variant=per_variant, programs_excluded_as_expensive=len(expensive), mismatches=len(mismatches)), required=["digests_compared"], t0=t0)
+
+
 PRED_KINDS = ["Arbitrary", "ByteSet1", "ByteSet2", "ByteSet3", "ByteSeq", "ByteBracket", "StartAnchored"]
 
 RULE_PROGRAMS = (
@@ -616,6 +705,15 @@ CHECKS = {
         extra=lambda m: dict(class_expressions=m.c("class_expressions"), esref_events=group_counters(m.counters, "esref."), pattern_features=group_counters(m.counters, "feat.")),
         required=["esref.class_string_matched", "esref.class_empty_string_matched"],
     ),
+    "C14": simple_check(
+        "C14",
+        "c14",
+        RULE_PROGRAMS + "pattern alphabets mix BMP and supplementary characters (Deseret, Adlam, emoji, U+10FFFF); each case compares find_from_utf16 on the UTF-16 encoding (offsets translated back through an independent code point map) and, on BMP-only text, find_from_ucs2, with find_from of the same binary. Second part: seeded random u16 slices of length 0..8 over 12 units (lone, reversed and trailing surrogates) x 24 patterns x every start 0..=len+1 and usize::MAX x both entry points: no panic, fuel not exhausted, ranges inside the slice and increasing. non-trivial iff a match was found / the slice has a lone surrogate.",
+        ["built with the utf16 feature (the UTF-8 entry points of that build are the comparison side)"],
+        variant="utf16",
+        required=["pairs.utf16", "pairs.ucs2", "pairs_with_supplementary_text", "arbitrary_u16_cases_with_lone_surrogate"],
+        extra=lambda m: dict(pairs=group_counters(m.counters, "pairs"), arbitrary_u16_cases_with_lone_surrogate=m.c("arbitrary_u16_cases_with_lone_surrogate")),
+    ),
     "C16": simple_check(
         "C16",
         "c16",
@@ -649,6 +747,9 @@ CHECKS = {
         extra=c13_extra,
     ),
 }
+
+
+CHECKS["C15"] = check_c15
 
 
 def main(argv):
